@@ -144,7 +144,11 @@ func runC13(e *core.Env) {
 		}
 		r := core.NewRand(e.Seed, 13, uint64(i))
 		var today ref.Date
-		switch r.Intn(5) {
+		switch r.Intn(6) {
+		case 5: // February / March of century years (leap and not): the month's last day is where calendar shortcuts go wrong
+			y := r.PickInt(1900, 2100, 2200, 2300, 2000, 2400, 100, 9900)
+			m := r.PickInt(2, 2, 3)
+			today = ref.Date{Y: y, M: m, D: r.Range(1, ref.DaysInMonth(y, m))}
 		case 0:
 			today = ref.DateFromDays(r.Range(ref.MinDay+1, ref.MaxDay-1))
 		case 1:
